@@ -143,6 +143,7 @@ AttrRun(names, i, ps, prefix) ==
 \* stored key = upper(snake_case(key)); duplicate check on the stored key (raises ValueError).
 UpperS(s) == Map(Upper, s)
 ValueKey(i) == <<"V","A","L","U","E","_">> \o (CASE i = 0 -> <<"0">> [] i = 1 -> <<"1">> [] i = 2 -> <<"2">> [] OTHER -> <<"9">>)
+\* note: the digits "0","1","2" and the letters of VALUE are tokens of the alphabet (Dig / AUp)
 RECURSIVE EnumRun(_, _, _, _)
 \* vals: sequence of values; raw: set of raw keys seen; out: sequence of [key, val] (dict insertion, later wins)
 EnumRun(vals, i, raw, out) ==
